@@ -172,6 +172,12 @@ func (core *JApiCore) setCurrentDirective(keyword string, keywordCoords directiv
 		return core.japiError(fmt.Sprintf("unknown directive %q", keyword), keywordCoords.Begin())
 	}
 
+	if _, ok := core.bannedDirectives[de]; ok {
+		// Refused as soon as it is read: wherever it is written (also inside a macro
+		// or an included file) and before anything is done on its behalf.
+		return core.japiError(fmt.Sprintf("%s (%s)", jerr.DirectiveNotAllowed, de.String()), keywordCoords.Begin())
+	}
+
 	d := directive.NewWithCallStack(de, keywordCoords, core.scannersStack.ToDirectiveIncludeTracer())
 	d.Keyword = keyword
 
